@@ -686,7 +686,6 @@ Definition crud_step (t : table) (o : op) : res (table * N) :=
 
 Section Run.
   Variable rx_comm rx_ext rx_large : N -> N -> bool.
-  Variable pr : profile.
 
   Definition eval_op (t : table) (import : bool) (r : route) : val :=
     match slot t import with
@@ -694,14 +693,14 @@ Section Run.
     | Some a =>
         let rs := {| r_attrs := ro_attrs r; r_nh := ro_nh r |} in
         if import then
-          match apply_import rx_comm rx_ext rx_large pr a (ro_src r) (ro_net r) rs with
+          match apply_import rx_comm rx_ext rx_large a (ro_src r) (ro_net r) rs with
           | Panic _ => VL [VI (-1)%Z]
           | Ok (f, rs') => VL (VB f :: v_rstate rs')
           end
         else
           let x := {| x_src := ro_src r; x_net := ro_net r; x_orig_nh := ro_orig r;
                       x_confed := ro_confed r; x_local := ro_local r; x_peer := ro_peer r |} in
-          match apply_export rx_comm rx_ext rx_large pr a x rs with
+          match apply_export rx_comm rx_ext rx_large a x rs with
           | Panic _ => VL [VI (-1)%Z]
           | Ok (d, rs') => VL (VN (disp_code d) :: v_rstate rs')
           end
@@ -785,5 +784,5 @@ Definition rx_table (tb : list (N * list N)) (id s : N) : bool :=
   | None => false
   end.
 
-Definition run_case (pr : profile) (tc te tl : list (N * list N)) (ops : list op) : val :=
-  VL (run_ops (rx_table tc) (rx_table te) (rx_table tl) pr empty_table ops).
+Definition run_case (tc te tl : list (N * list N)) (ops : list op) : val :=
+  VL (run_ops (rx_table tc) (rx_table te) (rx_table tl) empty_table ops).
